@@ -931,7 +931,7 @@ OBLIGATIONS = {
     "C07": [("steps", "JoinOutput::generate_thread_builders_and_spawn_joiners"), ("steps", "JoinOutput::generate_step_tail"), ("steps", "lemma_concat_all"), ("entries", "lemma_entry_table")],
     "C13": [("guards", "Handler::is_map"), ("guards", "Handler::is_then"), ("guards", "Handler::is_and_then"), ("guards", "new_guards"), ("gen", "JoinOutput::generate_handle"), ("gen", "JoinOutput::extract_results_tuple"), ("gen", "JoinOutput::generate_results_transposer")],
     "C09": [("steps", "JoinOutput::generate_step_tail")],
-    "C08": [("steps", "JoinOutput::generate_thread_builders_and_spawn_joiners"), ("steps", "JoinOutput::generate_step_tail"), ("steps", "lemma_concat_all"),
+    "C08": [("sep", "is_block_expr"), ("steps", "JoinOutput::generate_thread_builders_and_spawn_joiners"), ("steps", "JoinOutput::generate_step_tail"), ("steps", "lemma_concat_all"),
             ("core", "construct_thread_builder_name"), ("core", "construct_thread_builder_fn_name")],
     "C18": [("steps", "JoinOutput::generate_thread_builders_and_spawn_joiners"), ("steps", "JoinOutput::generate_step_tail")],
     "C05": [("steps", "JoinOutput::join_steps"), ("steps", "lemma_join_comma"), ("steps", "lemma_count_take_step"), ("gen", "JoinOutput::generate_results_transposer"), ("parse", "parse_until_suffix"), ("parse", "ActionGroup::parse_stream"),
